@@ -277,6 +277,23 @@ theorem var_word_steals_option_value :
 theorem pinned_empty_word_crashes :
     (stripVarsP true [['-','l'], []]).toBool = false ∧ (stripVarsP false [['-','l'], []]).toBool = true := by decide
 
+/-- late choices (`backend`): a name outside the choices is an invalid-choice error from the config section, from
+    DOIT_CONFIG and from the command line alike; a known name from a section is accepted -/
+example :
+    errOf (pipelineLate false demoBackend [['b']] [(['b'], .raw ['n','o'])] [] (fun _ => none) []) = some .badChoice ∧
+    errOf (pipelineLate false demoBackend [['b']] [] [(['b'], .s ['n','o'])] (fun _ => none) []) = some .badChoice ∧
+    errOf (pipelineLate false demoBackend [['b']] [] [] (fun _ => none) [['-','-','b','a','c','k','e','n','d','=','n','o']])
+      = some .badChoice ∧
+    observe [['b']] (pipelineLate false demoBackend [['b']] [(['b'], .raw ['j','s','o','n'])] [] (fun _ => none) [])
+      = some ([some (.s ['j','s','o','n'])], []) := by decide
+
+/-- F-C16e (fixed in /repo): the choices of `backend` were attached after `overwrite_defaults` and DOIT_CONFIG was never
+    validated — an unknown name from a config section or DOIT_CONFIG was accepted by the parsers and ended as a
+    `TypeError` traceback -/
+theorem pinned_backend_choice_unchecked :
+    errOf (pipelineLate true demoBackend [['b']] [(['b'], .raw ['n','o'])] [] (fun _ => none) []) = some .crash ∧
+    errOf (pipelineLate true demoBackend [['b']] [] [(['b'], .s ['n','o'])] (fun _ => none) []) = some .crash := by decide
+
 /-- F-C16b (fixed in /repo, e98fc2c): with the command constructed outside the `try`, `num = abc` in the command's
     config section ended as an uncaught exception (exit status 1), not as exit code 3 -/
 theorem pinned_config_error_escapes :
